@@ -14,7 +14,11 @@ META = {
              'small-step model whose reader and writer programs are regenerated from the source (order of lookup / load '
              'generation / fetch / re-check / insert, and of backend write / bump / evict in every write path): any number of '
              'readers and writers, any schedule, a read never returns a value older than the newest write acknowledged before '
-             'it started (with a refuted witness for the order fetch-then-load). Two Coq-proved checkers judge the real implementation: admits (is this trace of start / backend step / '
+             'it started (with a refuted witness for the order fetch-then-load). A third model covers the collection-metadata '
+             'step of a flush (program regenerated from store_metadata: snapshot, PUT, watermark advanced to the snapshot\'s '
+             'version) against extension writers that take no gate: after any interleaving followed by a flush that runs alone '
+             'meta.cbor equals the in-memory metadata, what a flush persists is a prefix of the mutation log (refuted witness for '
+             'recording the live version). Two Coq-proved checkers judge the real implementation: admits (is this trace of start / backend step / '
              'resume / return events a run of the model with the same return values and final documents?) over all '
              'interleavings of the backend steps of every ordered pair of operations and sampled 3- and 4-operation sets on a '
              'single-threaded executor through a parking store, and lin_ok (is this order a sequential execution with exactly '
@@ -22,7 +26,10 @@ META = {
              'and randomized multi-threaded runs; a harness-side sequential-order search and an index/document comparison are '
              'the direct oracles.'),
     'design_ref': 'DESIGN.md section 4 / C05',
-    'note': ('Partial: extension writers and index-only reads (query_ids) are judged by the harness oracle only; the cache model is '
+    'note': ('Partial: extension calls are in the harness pool (set_extension with its start as a scheduling choice between the '
+             'backend steps of a flush; save/remove_extension parked like the others) and in the flush-metadata model, but not '
+             'in the concurrent document model: runs with them and index-only reads (query_ids) are judged by the harness '
+             'oracles (serial order incl. extensions; state after close + reopen = state left in memory); the cache model is '
              'per path (capacity evictions and generation-stripe collisions only add misses); a get served by a still-valid '
              'entry while a write of the same document is applied but not yet delivered is legal (the write is unacknowledged) '
              'but not strictly linearizable: such runs are judged by the acknowledged-write rule and lin_ok over the mutations, '
@@ -49,10 +56,13 @@ def run(ck):
                'pairs again with the read cache on; get / query_ids of present, removed and missing documents against every write '
                'with the cache ON and the backend GET parked before it is served and again before it is delivered, plus a reader '
                'started after the first call returned; read/write/write/read sets on one document; sampled triples and quadruples '
-               '(reads included, second wave after the first return), randomized 4-worker runs of 7 (quick) / 10 '
+               '(reads and extension calls included, second wave after the first return); set/save/remove_extension against a '
+               'flush made dirty by an add / update / extension write, set_extension started at every point between the flush\'s '
+               'backend steps; every explorer run ends with close + reopen and the comparison of documents, indexes and '
+               'extensions with what the calls left in memory; randomized 4-worker runs of 7 (quick) / 10 '
                '(thorough) operations in two waves; non-trivial = a distinct (operations, schedule) run with at least two '
                'operations on the same document or an add/flush pair')
-    ck.translate(only=['gen_cache'])
+    ck.translate(only=['gen_cache', 'gen_flushmeta'])
     ck.coq(['Conc/Props.v'], ['Conc', 'gen'], model_targets=['Conc/Run.vo'])
     ck.assume('interleavings at backend-call granularity; memory orderings and scheduler fairness are not modelled',
               'add may return any never-used id in the sequential specification',
